@@ -409,6 +409,15 @@ Section Par2.
                  (volume_layout (S nparity) 0 1 nparity);
       Ok ((basep ++ EXT_PAR2, snd ix) :: vols).
 
+  (* create.go isParityFilePath, on absolute clean paths: the input is the index file itself, or a file beside it
+     that LoadParityData would list as a recovery file of the set (io_list's test for the index path) *)
+  Definition is_parity_path (absPar a : list N) : bool :=
+    str_eqb a absPar ||
+    (let e := ext absPar in
+     let pre := strip_ext absPar ++ [DOT] in
+     Nat.leb (length pre + length e) (length a) && starts_with a pre && ends_with a e
+     && no_slash (skipn (length pre) a)).
+
   Definition par2_create (cwd parPath : list N) (files : list (list N)) (p : cparams) (st : io) : outcome unit * io :=
     if negb (str_eqb (ext parPath) EXT_PAR2) then (Err EUsage, st)
     else match files with
@@ -418,6 +427,9 @@ Section Par2.
       let np := if (cp_parity p <=? 0)%Z then 3%nat else Z.to_nat (cp_parity p) in
       let basedir := dir (abs_path cwd parPath) in
       let absfiles := map (abs_path cwd) files in
+      (* an input that Create would overwrite, or that would later be read as a recovery file of this set *)
+      if existsb (is_parity_path (abs_path cwd parPath)) absfiles then (Err EUsage, st)
+      else
       let rels := map (rel_path basedir) absfiles in
       if existsb (fun r => match r with c :: _ => c =? DOT | [] => true end) rels then (Err EUsage, st)
       else if negb (Nat.eqb (sz mod 4) 0) then (Err EUsage, st)
